@@ -51,6 +51,19 @@ def run(ctx, sess):
             ctx.ob('C07.1', bool(fl), run_fn.name, 'store to flush_processed_id', ev.where(),
                    'dominated by jls_wr_flush' if fl else 'ticket published before the file was flushed')
     ctx.floor('stores to flush_processed_id in the consumer', n, 1)
+    # the ticket that is published is the one carried by the FLUSH message being processed (monotone max with itself)
+    for ev in run_fn.stores():
+        lhs, rhs, o = ev.store_parts()
+        l0 = strip_casts(lhs)
+        if l0.get('op') == 'member' and l0.get('field') == 'flush_processed_id' and rhs is not None:
+            leaves = set()
+            for nd in walk(rhs):
+                if nd.get('op') == 'member' and not any(nd is k_ for m_ in walk(rhs) if m_.get('op') == 'member' for k_ in kids(m_)):
+                    leaves.add(nd['field'])
+            ok = leaves <= {'d', 'flush_processed_id'} and 'd' in leaves
+            ctx.ob('C07.1', ok, run_fn.name, 'published ticket comes from the processed FLUSH message', ev.where(),
+                   'ticket = max(message ticket, published)' if ok else
+                   'the published ticket is taken from %s, not from the FLUSH message: flushes whose messages are still queued are acknowledged' % sorted(leaves - {'d', 'flush_processed_id'}))
 
     # ---- C07.2
     fl = P.fn('jls_twr_flush')
@@ -99,9 +112,9 @@ def run(ctx, sess):
 
     # ---- C07.3
     lp = loops(run_fn)
-    peek_blocks = [ev.block.id for ev in run_fn.calls('jls_mrb_peek')]
+    peek_blocks = [ev.block.id for ev in run_fn.calls(('jls_mrb_peek', 'jls_mrb_pop'))]
     if not peek_blocks:
-        raise AnalysisBroken('jls_mrb_peek not found in jls_twr_run')
+        raise AnalysisBroken('jls_twr_run takes nothing from the ring (no jls_mrb_peek / jls_mrb_pop)')
     inner = None
     for hdr, body in lp.items():
         if peek_blocks[0] in body and (inner is None or len(body) < len(inner[1])):
@@ -119,7 +132,7 @@ def run(ctx, sess):
                 nexits += 1
                 facts = cond_facts(run_fn, b.cond, label)
                 ok = any(kind == 'eq' and c == 0 for (var, kind, c) in facts) and \
-                    df.derives(run_fn, b.cond, lambda n_: n_.get('op') == 'call' and n_.get('callee') == 'jls_mrb_peek', *df.cond_pos(b))
+                    df.derives(run_fn, b.cond, lambda n_: n_.get('op') == 'call' and n_.get('callee') in ('jls_mrb_peek', 'jls_mrb_pop'), *df.cond_pos(b))
                 ctx.ob('C07.3', ok, run_fn.name, 'exit of the drain loop', '%s:%d' % (run_fn.file, b.line),
                        'left only when the peeked message is NULL' if ok else 'the drain loop can be left while messages remain (exit on `%s`)' % show(b.cond))
             for ev in b.events:
@@ -216,6 +229,26 @@ def run(ctx, sess):
                 fresh = any(c.callee in ('malloc', 'calloc') for c in fn.calls())   # creation: object not shared yet
                 ctx.ob('C07.6', 'mutex' in must or fresh, fn.name, 'store to flag', ev.where(),
                        'under the flag mutex' if 'mutex' in must else ('object under construction' if fresh else 'flag stored without the mutex (lost wake-up)'))
+        for ev in fn.stores():
+            lhs, rhs, o = ev.store_parts()
+            l0 = strip_casts(lhs)
+            if l0.get('op') == 'member' and l0.get('field') == 'flag' and l0.get('rec') == 'event_flag' and const_of(rhs) == 0:
+                if any(c.callee in ('malloc', 'calloc') for c in fn.calls()):
+                    continue
+                waits = [c for c in fn.calls('pthread_cond_wait')]
+                # dominated by the exit edge of a loop testing the flag (flag observed non-zero) in this function
+                observed = False
+                for (bid, label) in [(b.id, lab) for b in fn.blocks.values() for lab in ('T', 'F')]:
+                    for (var, kind, cv) in cond_facts(fn, fn.blocks[bid].cond, label):
+                        if var.endswith('.flag') and kind == 'ne' and cv == 0:
+                            # the store is only reachable through this edge
+                            from ..graph import find_path as fp
+                            w_ = fp(fn, 'entry', lambda e2, facts: 'target' if e2 is ev else None, edge_ok=lambda b, s, l2, bid=bid, label=label: (b.id, l2) != (bid, label), refine=False)
+                            if w_ is None:
+                                observed = True
+                ctx.ob('C07.6', observed and bool(waits), fn.name, 'flag is consumed only where it was observed set', ev.where(),
+                       'reset after the wait loop saw it set, under the mutex' if (observed and waits) else
+                       'the flag is cleared without having been observed set in the same critical section: a signal sent between the last queue check and this clear is lost (consumer sleeps forever)')
         for s_ev in fn.calls('pthread_cond_signal'):
             must, may = L.state_before(fn, s_ev)
             # the flag must be set before signalling
